@@ -255,6 +255,8 @@ inductive HOp where
   | dec | inc | clear | get
   | moveKeepNew            -- move-construct a new buffer, continue with the new one
   | moveKeepOld            -- move-construct a new buffer, continue with the moved-from one
+  | moveAssignFrom (S2 k w : Nat)   -- `*this = std::move(other)`, `other` a buffer of ANOTHER state size `S2` holding `k` vectors (window `w`, 0 = default); continue with this one
+  | moveAssignInto (S2 k w : Nat)   -- `other = std::move(*this)` into such a buffer; continue with `other`
 deriving Repr
 
 def Hist.new (S : Nat) : Hist := ⟨5, S, []⟩
@@ -286,6 +288,16 @@ def histGet (h : Hist) : W Shape := do
     assignFixed "HistoryBuffer::getHistoryBuffer: hist_out.col(i) = element" c (vecS (h.buf.getD i 0))
   pure out
 
+/-- `k` successive `addElement` of vectors with `S` entries -/
+def histAddMany (S : Nat) : Nat → Hist → W Hist
+  | 0, h => pure h
+  | k + 1, h => do let h' ← histAdd h S; histAddMany S k h'
+
+/-- another buffer, of state size `S2`, window `w` (0: default), filled with `k` vectors of its own size -/
+def otherHist (S2 k w : Nat) : W Hist := do
+  let h0 ← (if w > 0 then histSetSize (Hist.new S2) w else pure (Hist.new S2))
+  histAddMany S2 k h0
+
 def histStep (h : Hist) : HOp → W (Hist × String)
   | .add k => do let h' ← histAdd h k; pure (h', "a")
   | .setSize w => do let h' ← histSetSize h w; pure (h', s!"s1:{h'.window}")
@@ -298,6 +310,9 @@ def histStep (h : Hist) : HOp → W (Hist × String)
   | .get => do let s ← histGet h; pure (h, "g:" ++ s.str)
   | .moveKeepNew => pure (h, "m")
   | .moveKeepOld => pure (⟨0, 0, []⟩, "m")
+  -- move assignment hands over window_, state_size_ AND the stored vectors
+  | .moveAssignFrom S2 k w => do let o ← otherHist S2 k w; pure (o, "m")
+  | .moveAssignInto S2 k w => do let _ ← otherHist S2 k w; pure (h, "m")
 
 def histRun : Hist → List HOp → W (List String)
   | _, [] => pure []
